@@ -99,6 +99,10 @@ REWRITES = {
     "str_len": ("re", r"\btext\.len\(\)", r"str_len(text)", "str::len -> shim (byte length)"),
     "string_replace_range_acc": ("re", r"acc\.text\.replace_range\(", r"string_replace_range(&mut acc.text, ", "String::replace_range has no vstd spec; shim with the std call"),
     "filter_map_collect": ("chain_fmc2", "filter_map", "filter_map_collect", "xs.iter().filter_map(f).collect() -> shim with the same std body (R8)"),
+    "find_map_first": ("chain_fm", "find_map", "find_map_first", "xs.iter().find_map(f) -> shim with the same std body (R8): the first Some result in order"),
+    "option_iter_find_map": ("re", r"(?s)opt\.iter\(\)\s*\.map\(\|boxed\| boxed\.as_ref\(\)\)\s*\.find_map\(\|r\| ", r"option_find_map(opt, |r| ", "Option::iter().map(Box::as_ref).find_map(f): an Option yields at most one element -> shim `match opt { Some(b) => f(&**b), None => None }`"),
+    "or_else_inline": ("opt_or_else", "", "", "Option::or_else(f) inlined as its std definition `match self { Some(v) => Some(v), None => f() }`"),
+    "slice_from": ("re", r"&tokens\[offset\.\.\]", r"slice_from(tokens, offset)", "&s[a..] (RangeFrom indexing) -> shim, panics iff a > len"),
     "drop_const_fn": ("re", r"\bconst fn\b", "fn", "const fn that calls non-const shim"),
 }
 
@@ -265,6 +269,49 @@ def apply_rewrite(name, text):
             d3 -= text[e] == "}"
             e += 1
         return text[:m.start()] + repl + text[e:], {"rewrite": name, "why": why, "sites": [{"from": text[m.start():m.start() + 120] + " ... }", "to": repl}]}
+    if spec[0] == "chain_fm":
+        _, method, fname, why = spec
+        pat = re.compile(r"\.\s*iter\(\)\s*\.\s*" + method + r"\s*\(")
+        out, sites, pos = text, [], 0
+        while True:
+            m = pat.search(out, pos)
+            if not m:
+                break
+            dot = m.start()
+            rs = _postfix_chain_start(out, dot)
+            recv = re.sub(r"\s+", "", out[rs:dot])
+            depth, k = 1, m.end()
+            while depth:
+                if out[k] in "([{":
+                    depth += 1
+                elif out[k] in ")]}":
+                    depth -= 1
+                k += 1
+            clo = out[m.end():k - 1].strip()
+            new = f"{fname}(&{recv}, {clo})"
+            sites.append({"from": out[rs:k][:120], "to": new[:120]})
+            out = out[:rs] + new + out[k:]
+            pos = rs + 10
+        return out, {"rewrite": name, "why": why, "sites": sites}
+    if spec[0] == "opt_or_else":
+        why = spec[3]
+        m = re.search(r"\.\s*or_else\s*\(\s*\|\|\s*", text)
+        if not m:
+            return text, {"rewrite": name, "why": why, "sites": []}
+        dot = m.start()
+        rs = _postfix_chain_start(text, dot)
+        recv = text[rs:dot].strip()
+        op = text.index("(", dot)
+        depth, k = 1, op + 1
+        while depth:
+            if text[k] in "([{":
+                depth += 1
+            elif text[k] in ")]}":
+                depth -= 1
+            k += 1
+        body = text[m.end():k - 1].strip()
+        new = f"(match {recv} {{ Some(v_) => Some(v_), None => {body} }})"
+        return text[:rs] + new + text[k:], {"rewrite": name, "why": why, "sites": [{"from": text[rs:k][:120], "to": new[:120]}]}
     if spec[0] == "chain_fmc2":
         _, method, fname, why = spec
         pat = re.compile(r"\.\s*iter\(\)\s*\.\s*" + method + r"\s*\(")
